@@ -46,9 +46,9 @@ CODES = {
 RULE = ("rt: elections with 0..5 projects (ids/metadata from a pool containing ';', '\"', ',', spaces, non-ASCII "
         "letters, empty strings), integer/decimal/fractional costs and budgets, categories/targets, project and "
         "voter metadata columns with holes, the four vote types, list and multi profiles, legal limits at, below "
-        "and above the Pabulib defaults, voter ids absent/sorted/unsorted/duplicated; low-frequency streams for the "
-        "not-repaired behaviours (empty ballot, missing project_meta entry, ',' in a project id or category, line "
-        "break in a string, a section keyword as first cell).  file: own renderer with padding blanks, None/none "
+        "and above the Pabulib defaults, voter ids absent/sorted/unsorted/duplicated, empty ballots, instances "
+        "without project_meta entries; low-frequency streams for the recorded findings (',' in a project id or "
+        "category, line break in a string, a section keyword as first cell).  file: own renderer with padding blanks, None/none "
         "cells, decimal commas, minimal/forced quoting, doubled quotes, blank lines, \\n and \\r\\n, keyword case; "
         "plus malformed files.  corpus: real files (quick: fixed sample <200 KB; thorough: every non-empty file). "
         "Strings are stripped, never 'none', never a reserved column name; max-type limits are non-zero.  "
@@ -326,7 +326,7 @@ MKEYS = ["description", "country", "unit", "subunit", "instance", "rule", "date_
 CATS = ["culture", "sport", "green space", "edu;cation", 'pub"lic', "Zdrowie", ""]
 COSTS = ["1", "2", "3", "5", "10", "100", "2500", "0", "1/2", "5/2", "7/4", "1/10", "99/100", "1/3", "7/3", "12345/100"]
 POINTS = ["0", "1", "2", "3", "5", "10", "1/2", "1/3", "5/2", "7/10"]
-FINDING_FLAGS = ["empty_ballot", "no_project_meta", "comma_in_list_item", "linebreak", "keyword_cell"]
+FINDING_FLAGS = ["comma_in_list_item", "linebreak", "keyword_cell"]
 
 
 def pick_subset(rng, pool, pmax):
@@ -372,7 +372,7 @@ def gen_election(rng, flag=None):
     idmode = rng.choice(["absent", "absent", "sorted", "sorted", "unsorted", "dup", "mixed"])
     ballots = []
     for j in range(nb):
-        k = rng.randrange(1, n + 1)
+        k = rng.randrange(1, n + 1) if rng.random() > 0.12 else 0
         names = rng.sample(ids, k)
         pts = []
         if vt in ("scoring", "cumulative"):
@@ -394,8 +394,6 @@ def gen_election(rng, flag=None):
             meta.append([k2, rng.choice(VALS)])
         rng.shuffle(meta)
         ballots.append({"projects": names, "points": pts, "meta": meta, "mult": 1})
-    if flag == "empty_ballot" and n:
-        ballots.insert(rng.randrange(0, len(ballots) + 1), {"projects": [], "points": [], "meta": [], "mult": 1})
     # limits
     L = {}
     if rng.random() < 0.45:
@@ -444,14 +442,17 @@ def gen_election(rng, flag=None):
 def gen_rt(rng, i):
     flag = None
     r = rng.random()
-    if r < 0.10:
+    if r < 0.06:
         flag = FINDING_FLAGS[rng.randrange(len(FINDING_FLAGS))]
     E = gen_election(rng, flag)
     opts = {"int_costs": rng.random() < 0.7, "parsed_like": rng.random() < 0.4, "multi": False}
-    if flag == "no_project_meta":
+    if rng.random() < 0.12:
+        # user-built instance: no project_meta entry for projects without metadata
         opts["no_project_meta"] = True
-        for p in E["projects"][:1]:
-            p["meta"] = []
+        opts["parsed_like"] = False
+        for p in E["projects"]:
+            if rng.random() < 0.6:
+                p["meta"] = []
     if opts["parsed_like"]:
         # what the parser would have left in the dictionaries (possibly stale text)
         for p in E["projects"]:
@@ -937,7 +938,7 @@ def check_against_minimal(text, E):
         return "vote count %d vs %d" % (len(votes), len(E["ballots"]))
     vt = E["vtype"]
     for v, b in zip(votes, E["ballots"]):
-        names = v["vote"].split(",")
+        names = v["vote"].split(",") if v["vote"].strip() else []
         if vt == "approval":
             if sorted(set(names)) != sorted(b["projects"]):
                 return "approval ballot of voter %r" % v.get("voter_id")
@@ -945,7 +946,7 @@ def check_against_minimal(text, E):
             if list(dict.fromkeys(names)) != b["projects"]:
                 return "ordinal ballot of voter %r" % v.get("voter_id")
         else:
-            pts = [F(x.strip()) for x in v["points"].split(",")]
+            pts = [F(x.strip()) for x in v["points"].split(",")] if v["points"].strip() else []
             want = {}
             for n, x in zip(names, pts):
                 want[n] = x
@@ -1113,54 +1114,3 @@ def shrink(case):
         c = dict(case)
         c["opts"] = dict(case["opts"], multi=False)
         yield c
-
-
-# ----------------------------------------------------------------------------------------------
-# signature predicates proposed for known_findings.json (pred(case, observed, code) -> bool)
-# ----------------------------------------------------------------------------------------------
-LINEBREAKS = "\n\r\x0b\x0c\x1c\x1d\x1e\x85  "
-
-
-def _strings(E):
-    for k, v in E["meta"]:
-        yield k
-        yield v
-    for p in E["projects"]:
-        yield p["name"]
-        for c in p["cats"] + p["targets"]:
-            yield c
-        for k, v in p["meta"]:
-            yield k
-            yield v
-    for b in E["ballots"]:
-        for k, v in b["meta"]:
-            yield k
-            yield v
-
-
-def c11_empty_ballot(case, o, code):
-    return case.get("kind") == "rt" and any(not b["projects"] for b in case["E"]["ballots"])
-
-
-def c11_project_meta_entry_missing(case, o, code):
-    return (case.get("kind") == "rt" and bool(case["opts"].get("no_project_meta"))
-            and any(not p["meta"] for p in case["E"]["projects"]))
-
-
-def c11_comma_in_list_item(case, o, code):
-    return case.get("kind") == "rt" and any(
-        ("," in p["name"]) or any("," in c for c in p["cats"] + p["targets"]) for p in case["E"]["projects"])
-
-
-def c11_linebreak_in_string(case, o, code):
-    return case.get("kind") == "rt" and any(any(ch in s for ch in LINEBREAKS) for s in _strings(case["E"]))
-
-
-def c11_section_keyword_first_cell(case, o, code):
-    if case.get("kind") != "rt":
-        return False
-    E = case["E"]
-    kws = ("meta", "projects", "votes")
-    firsts = [k for k, _ in E["meta"]] + [p["name"] for p in E["projects"]]
-    firsts += [dict(map(tuple, b["meta"])).get("voter_id", "") for b in E["ballots"]]
-    return any(s.strip().lower() in kws for s in firsts)
